@@ -25,6 +25,11 @@ from .. import lspdrive as L
 from ..core import BUILD, NCPU, REPO, scratch
 
 PROBE_TEXT = "fn probe() {}\n"
+
+
+def _tag(ctx):
+    """Scratch directories are per (tier, seed) so that concurrent runs of this check do not wipe each other."""
+    return "%s-s%d" % (ctx.tier, ctx.seed)
 SESSION_TEXTS = 10
 
 
@@ -59,7 +64,7 @@ def run(ctx):
 
 def part1(ctx):
     count = int(ctx.opts.get("pos", ctx.pick(16000, 400000)))
-    r = inproc.run_sharded("vh-lsp", "pos", ctx.seed, count, "c20-pos", timeout=ctx.pick(300, 1500))
+    r = inproc.run_sharded("vh-lsp", "pos", ctx.seed, count, "c20-pos-" + _tag(ctx), timeout=ctx.pick(300, 1500))
     for o in r.ok:
         ctx.observe(o.get("h"))
     for k, v in r.stats.items():
@@ -363,17 +368,17 @@ def run_session(exe, sdir, cases, watchdog):
 def part2(ctx, exe):
     n = int(ctx.opts.get("srv", ctx.pick(320, 5000)))
     nsh = 8
-    r = inproc.run_sharded("vh-lsp", "dump", ctx.seed, n, "c20-dump", nshards=nsh, timeout=600)
+    r = inproc.run_sharded("vh-lsp", "dump", ctx.seed, n, "c20-dump-" + _tag(ctx), nshards=nsh, timeout=1800)
     if r.deaths or r.timeouts:
         ctx.inconc("text generation for the server part failed: %r" % (r.deaths[:1] or r.timeouts,))
-    dump = os.path.join(BUILD, "scratch", "c20-dump")
+    dump = os.path.join(BUILD, "scratch", "c20-dump-" + _tag(ctx))
     cases = []
     for o in sorted(r.ok, key=lambda o: o["idx"]):
         p = os.path.join(dump, "s%d" % (o["idx"] % nsh), o["file"])
         with open(p, encoding="utf-8", newline="") as f:
             text = f.read()
         cases.append({"idx": o["idx"], "fam": o["fam"], "text": text, "h": o["h"], "base": o.get("base")})
-    root = scratch("c20-lsp")
+    root = scratch("c20-lsp-" + _tag(ctx))
     sessions = [cases[i:i + SESSION_TEXTS] for i in range(0, len(cases), SESSION_TEXTS)]
     watchdog = 180
     t0 = time.time()
@@ -413,3 +418,4 @@ def part2(ctx, exe):
     # the server's stderr logs and project trees are only needed for failures (already copied into replay dirs)
     import shutil
     shutil.rmtree(root, ignore_errors=True)
+    shutil.rmtree(dump, ignore_errors=True)
